@@ -318,6 +318,8 @@ def _r30_clamps(repo, sink):
                     for j, rr in enumerate(base_reqs):
                         if rr is not base and rr != base:
                             o.name(Sym("sub", rr, add), f"r{j}-extra", 5 + j)
+                    if base is not ini:
+                        o.name(Sym("sub", ini, add), "init-extra", 0)
                     it = FinamInterp(repo, o)
                     trial = Obj(cls=c, label="DelayToPull")
                     trial.fields.update({kk: (type(vv)(vv) if isinstance(vv, list) else vv) for kk, vv in me.fields.items()})
@@ -347,6 +349,8 @@ def _r30_clamps(repo, sink):
                 for j, rr in enumerate(base_reqs):
                     if rr is not base and rr != base:
                         o.name(Sym("sub", rr, add), f"r{j}-extra", 5 + j)
+                if base is not ini:
+                    o.name(Sym("sub", ini, add), "init-extra", 0)
                 it = FinamInterp(repo, o)
                 it.run(wd, [r], self_obj=me)
                 it.run(pl, [r], self_obj=me)
@@ -694,6 +698,10 @@ def r40_cbtime(repo, sink):
                     return Sym("st", args[0])
                 if isinstance(fv, Closure) and getattr(fv.func, "name", "") == "get_magnitude":
                     return Sym("magnitude", args[0])
+                if isinstance(fv, Closure) and getattr(fv.func, "name", "") in ("quantify", "to_units"):
+                    return Sym(fv.func.name, args[0], args[1] if len(args) > 1 else kwargs.get("units"))
+                if isinstance(fv, Sym) and fv.op == "method" and fv.args[1] in ("to", "to_reduced_units", "m_as"):
+                    return Sym("to_units", fv.args[0], *args)
                 if isinstance(fv, Sym) and fv.op == "stubcall" and fv.args[1] == "pull_data":
                     self.pulled.append((fv.args[0].obj.fields["name"], args[0]))
                     return Sym("v", fv.args[0].obj.fields["name"], args[0])
@@ -702,8 +710,8 @@ def r40_cbtime(repo, sink):
                 return super().call_hook(fv, args, kwargs, node, mod)
 
             def get_attr(self, obj, attr, node, mod):
-                if isinstance(obj, Sym) and attr == "copy":
-                    return Sym("method", obj, "copy")
+                if isinstance(obj, Sym) and attr in ("copy", "to", "to_reduced_units", "m_as"):
+                    return Sym("method", obj, attr)
                 if isinstance(obj, Sym) and attr in ("magnitude", "units"):
                     return Sym(attr, obj)
                 return super().get_attr(obj, attr, node, mod)
@@ -723,8 +731,12 @@ def r40_cbtime(repo, sink):
             for nm in (n, n + "_weight"):
                 st = Obj(label="stub")
                 st.fields["name"] = nm
+                # the source has published ahead and does not publish again between the two requests
+                st.fields["source"] = Obj(label="stub-source", fields={"time": Sym("T_published", nm), "name": "src_" + nm})
                 inputs[nm] = st
         me = Obj(cls=wc, label="WeightedSum")
+        from ..absbase import seed_from_init
+        seed_from_init(FinamInterp(repo), wc, me, {"inputs": list(names), "grid": Sym("grid")})
         stale = {nm: Sym("stale-connect-phase-data", nm) for nm in inputs}
         me.fields.update(_input_names=list(names), _grid=Sym("grid"), _in_data=stale, _out_data=None, _last_update=None, _units=Sym("units_of_first_input"),
                          status=Sym("enum", "ComponentStatus", "VALIDATED"), inputs=inputs, logger=Logger(label="logger"))
@@ -752,8 +764,21 @@ def r40_cbtime(repo, sink):
         def strip_copy(v):
             return v.args[0] if isinstance(v, Sym) and v.op == "copy" else v
 
+        def drops_units(v, converted=False):
+            """A magnitude taken from a value that was not converted to a common unit first."""
+            if isinstance(v, Sym):
+                if v.op == "magnitude" and not converted and "to_units" not in repr(v.args[0]) and "_weight" not in repr(v.args[0]):
+                    return True
+                return any(drops_units(a, converted) for a in v.args)
+            if isinstance(v, (tuple, list)):
+                return any(drops_units(a, converted) for a in v)
+            return False
+
         why = None
-        if sorted(it.pulled[:n_pulls_1]) != sorted((nm, q) for nm in inputs):
+        if drops_units(strip_copy(r1)):
+            why = (f"result is {strip_copy(r1)!r}: the bare magnitudes of the value inputs are added without converting them to a common unit "
+                   "(inputs in km and m are summed as plain numbers and labelled with one of the units)")
+        elif sorted(it.pulled[:n_pulls_1]) != sorted((nm, q) for nm in inputs):
             why = f"first request pulls {sorted(it.pulled[:n_pulls_1])!r}; every input must be pulled once for the requested time"
         elif not same_value(strip_copy(r1), expect(q)):
             why = f"result is {strip_copy(r1)!r}, expected the sum over all names of value x own weight (time-stripped)"
@@ -928,3 +953,30 @@ def r18s_shape(repo, sink):
         if res != want:
             worst = worst or f"grid-less 1-D data of shape {shape}, {te} time entries: {res}, expected {want}"
     sink.check(worst is None, "R18", "shape-table:no-grid", g, ok="grid-less data gets a leading time axis; rank and time-entry mismatches are refused", bad=worst or "")
+    # grid-less data with a partly or completely prescribed shape: -1 entries are free, the others are binding
+    worst, ncase = None, 0
+    for gshape, rows in (
+        ((3, -1), [((3, 5), ("shape", (1, 3, 5))), ((1, 3, 5), ("shape", (1, 3, 5))), ((4, 5), ("raise", "FinamDataError")), ((1, 4, 5), ("raise", "FinamDataError")),
+                   ((3,), ("raise", "FinamDataError"))]),
+        ((-1, 2), [((7, 2), ("shape", (1, 7, 2))), ((7, 3), ("raise", "FinamDataError"))]),
+        ((3, 2), [((3, 2), ("shape", (1, 3, 2))), ((1, 3, 2), ("shape", (1, 3, 2))), ((2, 3), ("raise", "FinamDataError")), ((1, 2, 3), ("raise", "FinamDataError"))]),
+        ((-1, -1), [((4, 9), ("shape", (1, 4, 9)))]),
+    ):
+        nog2 = Obj(label="nogrid")
+        nog2.fields.update(dim=len(gshape), data_shape=gshape)
+        info3 = Obj(label="info", fields={"grid": nog2})
+        for shape, want in rows:
+            ncase += 1
+            it = _I(repo)
+            try:
+                got = it.run(g, [_arr(shape), info3, 1])
+                res = ("shape", got.fields["shape"])
+            except Raised as r:
+                res = ("raise", r.name)
+            except (Undecided, AnalysisError) as exc:
+                sink.unknown("R18", "shape-table:no-grid-prescribed", g, f"outside vocabulary: {exc}")
+                return
+            if res != want:
+                worst = worst or f"grid-less data of shape {shape} against a prescribed data shape {gshape}: {res}, expected {want}"
+    sink.check(worst is None, "R18", "shape-table:no-grid-prescribed", g,
+               ok=f"{ncase} shapes: prescribed extents are binding, -1 extents are free", bad=worst or "")
